@@ -9,6 +9,9 @@ import (
 // RootOptions describes the assumptions on a root function's parameters.
 type RootOptions struct {
 	ZeroReceiver bool // pointer receiver points to a zero value
+	// ElemsNonNil: slices of pointers/interfaces held by the receiver contain no
+	// nil element and no interface holding a nil pointer ("decoded or well-formed" values)
+	ElemsNonNil bool
 }
 
 // AnalyzeRoot evaluates fn with unconstrained parameters (slices of any
@@ -33,6 +36,27 @@ func (e *Engine) AnalyzeRoot(fn *ssa.Function, opt RootOptions) {
 		}
 		if isSliceLike(t) {
 			st.elemsNN[e.vid(p)] = !isPointerLike(elemType(t))
+			if opt.ElemsNonNil && i == 0 {
+				st.elemsNN[e.vid(p)] = true
+				st.elemsNN["D"+e.vid(p)] = true
+			}
+		}
+		if opt.ElemsNonNil && i == 0 && fn.Signature.Recv() != nil {
+			var obj string
+			var et types.Type
+			if ptr, ok := t.Underlying().(*types.Pointer); ok {
+				obj, et = "R"+e.vid(p)[1:], ptr.Elem()
+			} else if _, ok := t.Underlying().(*types.Struct); ok {
+				obj, et = e.aggKey(p), t
+			}
+			if obj != "" {
+				for _, lf := range leavesOf(et) {
+					if lf.kind == 1 {
+						st.elemsNN[obj+lf.path] = true
+						st.elemsNN["D"+obj+lf.path] = true
+					}
+				}
+			}
 		}
 	}
 	rets, _ := e.Eval(fn, st, true, nil)
